@@ -13,10 +13,12 @@ legacy non-streaming path) — a new use of the raw LIMIT as a truncation / take
 e1) no `ub` returned by RlteCatalog::lb_ub_one_numeric / lb_ub_one_string derives from floating-point arithmetic (a fraction of ladder checkpoints times the zone size truncates to 0 for a zone that
 holds qualifying rows); e2) both variants bring the ladder into a known order before they walk it (the numeric one sorts; the ladder file is written descending) - a walk that assumes the opposite order
 yields ub = 0 for every zone whose first rank exceeds the cut-off.
+(f) LIMIT bounds the rows emitted, never the rows a predicate is evaluated on: in ConditionEvaluator::evaluate_zones_with_limit neither the row range handed to evaluate_numeric_simd nor the range of a loop
+that calls evaluate_at depends on the `limit` argument (matches deeper in a zone than the remaining limit would be masked out as if they had failed the predicate).
 Does NOT decide: the remaining arithmetic of the RLTE planner (which min/max a partial ladder yields, zone sizes after compaction), slice positions, typed order of ScalarValue::compare (value level).
 """
-FLOOR = 6
-REQUIRED = ["C10.a", "C10.b", "C10.c", "C10.d", "C10.e1", "C10.e2"]
+FLOOR = 7
+REQUIRED = ["C10.a", "C10.b", "C10.c", "C10.d", "C10.e1", "C10.e2", "C10.f"]
 
 COPIES = ["engine::core::read::segment_query_runner::compare_scalar_values",
           "engine::core::read::flow::operators::memtable_source::compare_scalar_values",
@@ -229,3 +231,31 @@ def run(ctx):
                 bad.append(("ladder-order-assumed:%s" % fn, "%s walks the ladder in stored order without sorting it (its numeric sibling sorts first): the file is written descending, so the ASC walk stops at the first rank and reports ub = 0 for every zone whose maximum exceeds the cut-off" % fn, None))
         return bad
     ctx.run("C10.e2", "K11 SIB", "RlteCatalog::lb_ub_one_{numeric,string}", "both ladder walks work on an ordered ladder", e2)
+
+    def f_(inst):
+        b = F.fn("ConditionEvaluator::evaluate_zones_with_limit")
+        lim = [l for l in range(1, b.argc + 1) if "Option<usize>" in b.local_ty(l)]
+        if len(lim) != 1:
+            raise AnchorMissing("the Option<usize> limit parameter of evaluate_zones_with_limit (%d)" % len(lim))
+        lim = lim[0]
+        limflow = {l for l, _ in b.flow_forward([lim])} | {lim}
+        bad = []
+        simd = b.find_calls(r"ConditionEvaluator::evaluate_numeric_simd$")
+        if not simd:
+            raise AnchorMissing("evaluate_numeric_simd call")
+        for c_ in simd:
+            for idx_ in (2, 3):
+                dep = wide_all(b, c_.args[idx_], partial=False) if not ("k" in c_.args[idx_]) else set()
+                inst.sites.append("evaluate_numeric_simd arg %d @ %s depends on limit=%s" % (idx_, sp(b, c_.bb), bool(dep & limflow)))
+                if dep & limflow:
+                    bad.append(("predicate-range-limited", "the row range evaluate_numeric_simd classifies depends on LIMIT: matching rows deeper in the zone than the remaining limit are treated as non-matching", None))
+        ev = b.find_calls(r"Condition::evaluate_at$")
+        hs = for_headers(b)
+        for h in hs:
+            if not any(b.can_reach(h.bb, e_.bb) and b.can_reach(e_.bb, h.bb) for e_ in ev):
+                continue
+            dep = wide_all(b, h.args[0], partial=False)
+            if dep & limflow:
+                bad.append(("predicate-loop-limited", "a loop that evaluates a predicate per row (%s) runs over a range that depends on LIMIT" % sp(b, h.bb), None))
+        return bad
+    ctx.run("C10.f", "K7 PROV", "ConditionEvaluator::evaluate_zones_with_limit", "LIMIT never narrows the rows a predicate is evaluated on", f_)
